@@ -314,4 +314,7 @@ pub fn run(rc: &mut RunCtx) {
     rc.run_pt(STAGES[0], rc.pick(2_500, 80_000), (96, 400));
     rc.require_label("every_cut", "unknown_size", 50_000);
     rc.require_label("every_cut", "source_1byte_reads", 100_000);
+    if !rc.quick() {
+        rc.run_fuzz(Some(STAGES[0]), 250);
+    }
 }
